@@ -42,6 +42,7 @@ import (
 	haqqtypes "github.com/haqq-network/haqq/types"
 	coinomicstypes "github.com/haqq-network/haqq/x/coinomics/types"
 	erc20types "github.com/haqq-network/haqq/x/erc20/types"
+	feemarkettypes "github.com/haqq-network/haqq/x/feemarket/types"
 	evmtypes "github.com/haqq-network/haqq/x/evm/types"
 	lvtypes "github.com/haqq-network/haqq/x/liquidvesting/types"
 	ucdaotypes "github.com/haqq-network/haqq/x/ucdao/types"
@@ -86,6 +87,8 @@ type BlockFeed struct {
 type History struct {
 	NumVals   int      `json:"num_vals"`
 	Coinomics bool     `json:"coinomics"`
+	NoBaseFee bool     `json:"no_base_fee,omitempty"` // fee market without a base fee (a min gas price instead)
+	LateForks bool     `json:"late_forks,omitempty"`  // genesis leaves London and the later hard forks unscheduled (governance schedules them)
 	Blocks    []HBlock `json:"blocks"`
 }
 
@@ -116,7 +119,8 @@ func genHTx(t *rapid.T, kinds []string) HTx {
 }
 
 func genHistory(t *rapid.T, minBlocks, maxBlocks int, kinds []string) History {
-	h := History{NumVals: rapid.IntRange(2, 4).Draw(t, "nvals"), Coinomics: rapid.Bool().Draw(t, "coinomics")}
+	h := History{NumVals: rapid.IntRange(2, 4).Draw(t, "nvals"), Coinomics: rapid.Bool().Draw(t, "coinomics"), NoBaseFee: rapid.IntRange(0, 3).Draw(t, "nobasefee") == 0,
+		LateForks: rapid.IntRange(0, 5).Draw(t, "lateforks") == 0}
 	nb := rapid.IntRange(minBlocks, maxBlocks).Draw(t, "nblocks")
 	for i := 0; i < nb; i++ {
 		b := HBlock{Dt: rapid.SampledFrom(hDts).Draw(t, "dt"), Proposer: rapid.IntRange(0, 3).Draw(t, "proposer")}
@@ -186,13 +190,13 @@ func genHistory(t *rapid.T, minBlocks, maxBlocks int, kinds []string) History {
 			h.Blocks[i+1].Txs = append(h.Blocks[i+1].Txs, HTx{K: "send-module", A: a, N: rapid.IntRange(0, 6).Draw(t, "switch-target"), Amt: "1000"})
 		}
 	}
-	if has("eth-create") && nb >= 3 && rapid.IntRange(0, 3).Draw(t, "fork-scenario") == 0 {
+	if has("eth-create") && nb >= 3 && (rapid.IntRange(0, 3).Draw(t, "fork-scenario") == 0 || h.LateForks) {
 		// EVM activity, then governance re-schedules a hard fork a few blocks ahead, then a transaction whose outcome
 		// depends on the fork rules; or: a module-owned token pair, then the software upgrade, then EVM activity
 		i := rapid.IntRange(0, nb-3).Draw(t, "fork-at")
 		a := rapid.IntRange(0, hUsers-1).Draw(t, "fork-a")
 		h.Blocks[i].Txs = append([]HTx{{K: "eth-send", A: a, B: (a + 1) % hUsers, Amt: "1", N: 0}}, h.Blocks[i].Txs...)
-		if rapid.Bool().Draw(t, "fork-or-upgrade") {
+		if h.LateForks {
 			h.Blocks[i+1].Gov = append(h.Blocks[i+1].Gov, HTx{K: "fork-schedule", N: rapid.IntRange(0, 2).Draw(t, "fork-n")})
 			h.Blocks[i+2].Txs = append([]HTx{{K: "eth-create", A: a, N: 3}, {K: "eth-create", A: (a + 1) % hUsers, N: 0}}, h.Blocks[i+2].Txs...)
 			h.Blocks[i+1].Dt, h.Blocks[i+2].Dt = 5, 5
@@ -257,6 +261,22 @@ func hOpts(h History) chain.Opts {
 		dg := distrtypes.DefaultGenesisState()
 		dg.Params.CommunityTax = sdk.NewDecWithPrec(2, 2)
 		gs[distrtypes.ModuleName] = cdc.MustMarshalJSON(dg)
+
+		if h.LateForks {
+			var eg evmtypes.GenesisState
+			cdc.MustUnmarshalJSON(gs[evmtypes.ModuleName], &eg)
+			cc := eg.Params.ChainConfig
+			cc.LondonBlock, cc.ArrowGlacierBlock, cc.GrayGlacierBlock, cc.MergeNetsplitBlock, cc.ShanghaiBlock, cc.CancunBlock = nil, nil, nil, nil, nil, nil
+			eg.Params.ChainConfig = cc
+			gs[evmtypes.ModuleName] = cdc.MustMarshalJSON(&eg)
+		}
+		if h.NoBaseFee || h.LateForks {
+			var fg feemarkettypes.GenesisState
+			cdc.MustUnmarshalJSON(gs[feemarkettypes.ModuleName], &fg)
+			fg.Params.NoBaseFee = true
+			fg.Params.MinGasPrice = sdk.NewDec(1_000_000_000)
+			gs[feemarkettypes.ModuleName] = cdc.MustMarshalJSON(&fg)
+		}
 	}
 	return o
 }
@@ -390,8 +410,8 @@ func (r *hRunner) buildTx(x HTx) []byte {
 	}
 	eth := func(to *common.Address, value *big.Int, data []byte, gas uint64) []byte {
 		typ := 2
-		if x.N%3 == 0 {
-			typ = 0
+		if x.N%3 == 0 || !evmtypes.IsLondon(app.EvmKeeper.GetParams(ctx).ChainConfig.EthereumConfig(big.NewInt(11235)), ctx.BlockHeight()) {
+			typ = 0 // (fee-market transactions do not exist before the London rules)
 		}
 		return txb.EthTx(A, txb.Eth{Type: typ, ChainID: big.NewInt(11235), Nonce: seq, To: to, Value: value, Gas: gas, GasPrice: price, FeeCap: price, TipCap: big.NewInt(1_000_000_000), Data: data})
 	}
@@ -621,6 +641,10 @@ func (r *hRunner) buildTx(x HTx) []byte {
 		to := B.Hex
 		return eth(&to, amt, nil, 21000)
 	case "eth-create":
+		if x.N%4 == 2 {
+			// the constructor writes storage and returns no code: an account with storage, a nonce and empty code
+			return eth(nil, big.NewInt(0), []byte{0x60, 0x2a, 0x60, 0x01, 0x55, 0x60, byte(x.V + 1), 0x60, 0x02, 0x55, 0x00}, 400000)
+		}
 		if x.N%4 == 3 {
 			// runtime code starting with 0xEF: refused since the London rules (EIP-3541), accepted before them
 			return eth(nil, big.NewInt(0), evmasm.InitCode(append([]byte{0xEF}, storageRuntime()...)), 400000)
@@ -743,8 +767,11 @@ func (r *hRunner) resolveGov(x HTx) *GovOp {
 			}
 		}
 	case "fork-schedule":
-		// the London rules (and everything after them) are re-scheduled to start a few blocks from now
-		return &GovOp{K: "fork-schedule", Height: ctx.BlockHeight() + int64(2+x.N%3)}
+		// hard forks that are still unscheduled (London and everything after it) get a start height a few blocks ahead;
+		// an already scheduled or active fork is never moved
+		if app.EvmKeeper.GetParams(ctx).ChainConfig.LondonBlock == nil {
+			return &GovOp{K: "fork-schedule", Height: ctx.BlockHeight() + int64(2+x.N%3)}
+		}
 	case "precompile-off", "precompile-swap":
 		all := evmtypes.AvailableEVMExtensions
 		active := app.EvmKeeper.GetParams(ctx).ActivePrecompiles
@@ -809,12 +836,7 @@ func (r *hRunner) applyGov(g GovOp) {
 		p := app.EvmKeeper.GetParams(cctx)
 		at := sdkmath.NewInt(g.Height)
 		cc := p.ChainConfig
-		cc.LondonBlock = &at
-		for _, later := range []**sdkmath.Int{&cc.ArrowGlacierBlock, &cc.GrayGlacierBlock, &cc.MergeNetsplitBlock, &cc.ShanghaiBlock, &cc.CancunBlock} {
-			if *later != nil {
-				*later = &at
-			}
-		}
+		cc.LondonBlock, cc.ArrowGlacierBlock, cc.GrayGlacierBlock, cc.MergeNetsplitBlock, cc.ShanghaiBlock, cc.CancunBlock = &at, &at, &at, &at, &at, &at
 		p.ChainConfig = cc
 		if err = p.Validate(); err == nil {
 			err = app.EvmKeeper.SetParams(cctx, p)
@@ -906,7 +928,7 @@ func (r *hRunner) RunBlock(b HBlock, feed *BlockFeed) (BlockTrace, BlockFeed) {
 		} else {
 			r.st.Fail[k]++
 			if os.Getenv("VERIF_DEBUG") != "" {
-				fmt.Printf("DEBUG height %d tx %s failed: code %d %s %s\n", n.Header.Height, k, res.Code, vmErr, trunc(res.Log))
+				fmt.Printf("DEBUG height %d tx %s failed: code %d %s %s\n", n.Header.Height, k, res.Code, vmErr, func() string { if os.Getenv("VERIF_DEBUG") == "2" { return res.Log }; return trunc(res.Log) }())
 			}
 		}
 	}
@@ -939,7 +961,7 @@ func (r *hRunner) RunBlock(b HBlock, feed *BlockFeed) (BlockTrace, BlockFeed) {
 			}
 			before := len(tr.Txs)
 			deliver(x.K, bz)
-			if (x.K == "eth-create") && okFlags[before] && x.N%4 != 3 {
+			if (x.K == "eth-create") && okFlags[before] && x.N%4 < 2 {
 				r.st.Contracts = append(r.st.Contracts, ethcrypto.CreateAddress(sender.Hex, preSeq))
 			}
 			if x.K == "erc20-deploy" && okFlags[before] {
